@@ -77,7 +77,7 @@ const (
 
 var namesPlain = []string{"a", "b", "c", "d", "e", "f", "dir", "src", "main.go", "x.txt", "Makefile", "README.md", "lib", "t.go", "x.gz", "a.tar.gz", "profile", "cmd", "cmd.go"}
 var namesFS = []string{"a", "b", "c", "日本", "é", "x y", "ü.txt", "🌲", "a.b.c", "Ω", "src", "main.go", "k", "Makefile",
-	"A", "É", "Main.go", " lead", "100%", "%s", "50%off.txt", "a b  c", "-dash", "~tilde", "@at", "x.TXT", "trail ", "dot.", "UPPER.GO", "target", "j"}
+	"A", "É", "Main.go", " lead", "100%", "%s", "50%off.txt", "a b  c", "-dash", "~tilde", "@at", "x.TXT", "trail ", "dot.", "UPPER.GO", "target", "j", "back\\slash", "C#", "#hash", "a#b"}
 var namesHostile = []string{"a", "b", "a-b", "* x", " lead", "trail ", "x#y", "a:b", `q"uote`, `back\slash`, "- dash", "+p", "é", "{}", "[k]", "a  b", "c"}
 
 func genName(c *Ctx, alpha int) string {
@@ -231,6 +231,33 @@ func genSpelling(c *Ctx, extended bool) Spelling {
 		case 3:
 			s.UnitPerRoot = []string{"  ", "\t", "    ", "   "}
 		}
+	}
+	return s
+}
+
+// genSpellingSimple is genSpelling plus the notations that only simple mode handles alike:
+// '#' heading roots and leading blank lines. Heading text is trimmed of blanks and leading
+// '#'s by the parser, so root names are adjusted to survive that unchanged.
+func genSpellingSimple(c *Ctx, forest []*MNode) Spelling {
+	s := genSpelling(c, false)
+	switch c.Pick(6, 2, 1) {
+	case 1:
+		s.SharpRoots = true
+		seen := map[string]bool{}
+		for _, r := range forest {
+			n := strings.TrimLeft(strings.TrimSpace(r.Name), "#")
+			n = strings.TrimSpace(n)
+			if n == "" {
+				n = "h"
+			}
+			for seen[n] {
+				n += "_"
+			}
+			seen[n] = true
+			r.Name = n
+		}
+	case 2:
+		s.LeadBlank = 1 + c.Draw(2)
 	}
 	return s
 }
